@@ -2,3 +2,4 @@ import TinodeVerif.Props.C05
 import TinodeVerif.Props.C04
 import TinodeVerif.Props.C20
 import TinodeVerif.Props.C17
+import TinodeVerif.Props.C19
